@@ -60,6 +60,7 @@ def plan(quick):
           ("ea", "p", "p", 0), ("ea", "p", "p", 1), ("ea", "p", "p", 2)]
     if not quick:
         P_ += [("pp", "ph", "ph", 3), ("pp", "pphh", "pphh", 1),
+               ("pp", "ph", "pphh", 2), ("pp", "pphh", "ph", 2),
                ("ip", "h", "hhp", 1), ("ip", "hhp", "h", 1),
                ("ip", "hhp", "hhp", 0), ("ea", "p", "pph", 1),
                ("ea", "pph", "p", 1), ("ea", "pph", "pph", 0),
@@ -149,9 +150,16 @@ def run(ctx):
                      for J in range(len(X.configs[ks]))]
             n_s = 6 if quick else 14
             if len(pairs) > n_s:
-                pairs = rng.sample(pairs, n_s - 2) + \
-                    [(I, I) for I in (0, len(X.configs[bs]) - 1)
-                     if I < len(X.configs[ks])][:2]
+                # prefer pairs of configurations that share orbitals (delta
+                # terms only show there), plus a few arbitrary ones
+                def shared(IJ):
+                    (o1, v1), (o2, v2) = X.configs[bs][IJ[0]], \
+                        X.configs[ks][IJ[1]]
+                    return len(set(o1) & set(o2)) + len(set(v1) & set(v2))
+                ranked = sorted(pairs, key=lambda IJ: -shared(IJ))
+                top = ranked[:max(1, len(ranked) // 4)]
+                pairs = rng.sample(top, min(len(top), n_s - 2)) + \
+                    rng.sample(pairs, 2)
             for I, J in pairs:
                 (oi, vi), (oj, vj) = X.configs[bs][I], X.configs[ks][J]
                 val = evaluate(model, expr, bo + bv + ko + kv,
